@@ -39,9 +39,7 @@ def pairwise(rng, k):
 
 def arb_basis(rng, lp):
     n, m = len(lp["cols"]), len(lp["rows"])
-    idx = list(range(n + m))
-    rng.shuffle(idx)
-    bas = set(idx[:m])
+    bas = pick_basic_set(rng, lp)
 
     def cst(j):
         lo, up = lp["cols"][j][2], lp["cols"][j][3]
